@@ -401,8 +401,10 @@ fn child_in(c: &Case, dir: &std::path::Path) -> String {
   let mut per_app: BTreeMap<String, Got> = BTreeMap::new();
   let mut all_disc = true;
   let mut late = 0usize;
+  // one common deadline for all stream consumers to see Disconnected
+  let drain_deadline = std::time::Instant::now() + Duration::from_secs(8);
   for (name, done) in drainers {
-    match done.recv_timeout(Duration::from_secs(5)) {
+    match done.recv_timeout(drain_deadline.saturating_duration_since(std::time::Instant::now())) {
       Ok((got, disc, rx)) => {
         all_disc &= disc;
         per_app.insert(name, got);
